@@ -208,7 +208,6 @@ func c05Jobs(thorough bool) []c05Job {
 		add(graph, st(r, 0, "d", 2), 2, false, 2)
 		add(graph, st(r, 0, "d", 2), 1, true, 1)
 		if thorough {
-			add(graph, st(r, 3, "d", 3), 1, true, 1)
 			add(graph, st(r, 2, "d", 3), 2, true, 2)
 		}
 	}
@@ -226,9 +225,8 @@ func c05Jobs(thorough bool) []c05Job {
 			add(g, st("r1", 1, "r2", 2, "d", 2), 1, false, 1)
 			add(g, st("r1", 1, "r2", 1, "d", 1), 1, true, 1)
 		}
-		if thorough {
+		if thorough && g == "two" {
 			add(g, st("r1", 2, "r2", 2, "d", 2), 1, false, 1)
-			add(g, st("r1", 1, "r2", 2, "d", 1), 1, true, 1)
 		}
 	}
 	add("chain", st("r1", 2, "d", 2, "d2", 1), 1, false, 1)
@@ -244,9 +242,7 @@ func c05Jobs(thorough bool) []c05Job {
 	add("unrelated", st("r1", 1, "u", 1, "d", 1), 1, true, 1)
 	if thorough {
 		add("chain", st("r1", 2, "d", 2, "d2", 2), 1, false, 1)
-		add("chain", st("r1", 2, "d", 1, "d2", 2), 1, true, 1)
 		add("unrelated", st("r1", 2, "u", 2, "d", 2), 1, false, 1)
-		add("unrelated", st("r1", 1, "u", 2, "d", 1), 1, true, 1)
 	}
 	// largest jobs first: round-robin sharding then spreads them over the workers
 	sort.SliceStable(jobs, func(a, b int) bool { return c05Weight(jobs[a]) > c05Weight(jobs[b]) })
@@ -647,8 +643,8 @@ type c05Mode struct {
 // quick: <= 1 preemption at the non-commuting operations of the dependents.
 // thorough: <= 1 preemption at EVERY I/O operation of the dependents for every job, and
 // <= 2 preemptions at the non-commuting operations for the jobs whose schedule space stays small
-// (two-thread jobs without head growth; three-thread jobs of the graphs two / chain / unrelated
-// without head growth and with at most 5 steps in total).
+// (two-thread jobs without head growth; three-thread jobs of the graphs two / chain without head
+// growth and with at most 5 steps in total).
 func c05Modes(j c05Job, thorough bool) []c05Mode {
 	var b1, b2 explore.Bounds
 	b1[0], b1[vrt.KPreempt] = 1, 1
@@ -658,7 +654,7 @@ func c05Modes(j c05Job, thorough bool) []c05Mode {
 	}
 	ms := []c05Mode{{b1, true}}
 	w := c05Weight(j)
-	if w <= 60 || (w <= 170 && !j.Grow && j.Graph != "two-or") {
+	if w <= 60 || (w <= 170 && !j.Grow && (j.Graph == "two" || j.Graph == "chain")) {
 		ms = append(ms, c05Mode{b2, false})
 	}
 	return ms
